@@ -31,6 +31,15 @@ CLAIMED = {
  "C20": ("6/C20", "deterministic simulation: concurrent histogram creation with bucket sets built to collide in the shared bucket cache; per-histogram tiling oracle + caller-slice immutability",
          "Several tasks create histograms under one root at the same time with permutations of one set, sets with equal sums of bit patterns and value/duration sets of equal identity, some sharing one caller slice; each histogram must deliver exactly the tiling of the bounds it was created with, and BucketPairs / Histogram never modify the caller's slice. Exploration. Claimed for the keeps-its-bounds and never-modifies clauses only: the constructor clauses (recurrence, rejected arguments, Must* panics) are pure functions and not part of what this check decides.",
          "As C03."),
+ "C04": ("6/C04", "deterministic simulation: concurrent derivation programs (depth 0-6) with seeded strings, caller-map mutation while passes run; name/tag reference model + per-identity ledger at the reporter seam",
+         "Seeded derivation programs (SubScope/Tagged chains, any prefix/separator/root tags, ASCII, multi-byte and invalid UTF-8 strings, with and without a sanitizer) run by concurrent tasks with all metric kinds at the leaves; every value recorded through a handle must be delivered under exactly the name and tag set the reference model derives, nothing under any other identity, caller maps are neither mutated nor retained (mutated by the harness afterwards), maps handed to the reporter never change. Exploration; the derivation is a function of the program (covered by generation), the simulator adds concurrent derivation, caller-map mutation during passes and seeded map order in the merge/key code.",
+         "As C01; an empty subscope name under an empty prefix is accepted in both readings of the statement; when a sanitizer maps two keys of one Tagged map to the same key the run is skipped (precedence undefined)."),
+ "C05": ("6/C05", "deterministic simulation: sets of derivations equal modulo order/grouping or differing in one component, 1-64 registry shards, delimiter and empty-key strings; pointer-identity + disjoint-ledger oracle; key function vs documented format",
+         "Concurrent tasks derive the same identity through permuted and regrouped Tagged/SubScope chains, or an identity differing in one component, incl. pairs whose documented keys coincide because a component contains ',', '=' or '+', and empty tag keys; equal identities must return the same scope and metric object, different identities never share one and their ledgers stay disjoint; the public key function must be deterministic under every (seeded) map order and follow the documented format. Exploration; input-dominated.",
+         "As C04."),
+ "C06": ("6/C06", "deterministic simulation: sanitizer called from concurrent tasks over a pooled-buffer shim (LIFO reuse, seeded GC drop) + monitor on every string at the reporter seam; rune-level reference model",
+         "Seeded SanitizeOptions (arbitrary, empty, single-rune, multi-byte ranges, extra characters, any replacement rune) and strings up to 4 KiB biased to range end points +-1, multi-byte and invalid UTF-8; Name/Key/Value are called from several tasks at once while a scope workload pushes prefix, separator, subscope names, tags of every level and the cardinality metrics through the reporter seam; outputs must equal the reference model, contain only allowed or replacement runes, be idempotent and rune-count preserving, valid input unchanged. Exploration; the per-string function is pure (covered by generation), the simulator adds buffer-pool reuse across tasks and the whole-path monitor.",
+         "As C01; the pool shim hands the most recently returned buffer to the next caller so that use-after-put is observable."),
 }
 
 NOT_APPLICABLE = {
